@@ -1,5 +1,15 @@
 package server
 
+// Policy installation through the public API (a small subset of the policy language, enough for
+// the C15 / C16 / C20 workloads).
+
+import (
+	"context"
+	"fmt"
+
+	"github.com/osrg/gobgp/v4/api"
+)
+
 func (w *simWorld) installPolicies() error {
 	if len(w.sc.Policies) == 0 {
 		return nil
@@ -7,4 +17,87 @@ func (w *simWorld) installPolicies() error {
 	return w.installPolicyCfgs(w.sc.Policies)
 }
 
-func (w *simWorld) installPolicyCfgs(l []PolicyCfg) error { return nil }
+func (w *simWorld) installPolicyCfgs(l []PolicyCfg) error {
+	ctx := context.Background()
+	for _, p := range l {
+		cond := &api.Conditions{}
+		if len(p.Prefixes) > 0 {
+			ds := &api.DefinedSet{DefinedType: api.DefinedType_DEFINED_TYPE_PREFIX, Name: "ps-" + p.Name}
+			for _, x := range p.Prefixes {
+				bits := uint32(24)
+				fmt.Sscanf(x[len(x)-2:], "%d", &bits)
+				if x[len(x)-3] != '/' {
+					fmt.Sscanf(x[len(x)-1:], "%d", &bits)
+				}
+				ds.Prefixes = append(ds.Prefixes, &api.Prefix{IpPrefix: x, MaskLengthMin: bits, MaskLengthMax: bits})
+			}
+			if err := w.s.AddDefinedSet(ctx, &api.AddDefinedSetRequest{DefinedSet: ds}); err != nil {
+				return err
+			}
+			cond.PrefixSet = &api.MatchSet{Type: api.MatchSet_TYPE_ANY, Name: ds.Name}
+		}
+		if len(p.Neighbor) > 0 {
+			ds := &api.DefinedSet{DefinedType: api.DefinedType_DEFINED_TYPE_NEIGHBOR, Name: "ns-" + p.Name}
+			for _, n := range p.Neighbor {
+				ds.List = append(ds.List, n+"/32")
+			}
+			if err := w.s.AddDefinedSet(ctx, &api.AddDefinedSetRequest{DefinedSet: ds}); err != nil {
+				return err
+			}
+			cond.NeighborSet = &api.MatchSet{Type: api.MatchSet_TYPE_ANY, Name: ds.Name}
+		}
+		if p.Comm != "" {
+			ds := &api.DefinedSet{DefinedType: api.DefinedType_DEFINED_TYPE_COMMUNITY, Name: "cs-" + p.Name, List: []string{p.Comm}}
+			if err := w.s.AddDefinedSet(ctx, &api.AddDefinedSetRequest{DefinedSet: ds}); err != nil {
+				return err
+			}
+			cond.CommunitySet = &api.MatchSet{Type: api.MatchSet_TYPE_ANY, Name: ds.Name}
+		}
+		switch p.RPKI {
+		case "valid":
+			cond.RpkiResult = api.ValidationState_VALIDATION_STATE_VALID
+		case "invalid":
+			cond.RpkiResult = api.ValidationState_VALIDATION_STATE_INVALID
+		case "not-found":
+			cond.RpkiResult = api.ValidationState_VALIDATION_STATE_NOT_FOUND
+		}
+		act := &api.Actions{}
+		switch p.Action {
+		case "accept":
+			act.RouteAction = api.RouteAction_ROUTE_ACTION_ACCEPT
+		case "reject":
+			act.RouteAction = api.RouteAction_ROUTE_ACTION_REJECT
+		}
+		if p.SetMED > 0 {
+			act.Med = &api.MedAction{Type: api.MedAction_TYPE_REPLACE, Value: p.SetMED}
+		}
+		if p.SetLP > 0 {
+			act.LocalPref = &api.LocalPrefAction{Value: uint32(p.SetLP)}
+		}
+		if p.AddComm != "" {
+			act.Community = &api.CommunityAction{Type: api.CommunityAction_TYPE_ADD, Communities: []string{p.AddComm}}
+		}
+		if p.Prepend > 0 {
+			act.AsPrepend = &api.AsPrependAction{Asn: 65000, Repeat: uint32(p.Prepend)}
+		}
+		st := &api.Statement{Name: "st-" + p.Name, Conditions: cond, Actions: act}
+		pol := &api.Policy{Name: p.Name, Statements: []*api.Statement{st}}
+		if err := w.s.AddPolicy(ctx, &api.AddPolicyRequest{Policy: pol, ReferExistingStatements: false}); err != nil {
+			return err
+		}
+	}
+	return nil
+}
+
+// assignPolicy replaces the global import/export assignment (name "" = no policy).
+func (w *simWorld) assignPolicy(dir string, name string) error {
+	d := api.PolicyDirection_POLICY_DIRECTION_IMPORT
+	if dir == "export" {
+		d = api.PolicyDirection_POLICY_DIRECTION_EXPORT
+	}
+	pa := &api.PolicyAssignment{Name: "", Direction: d, DefaultAction: api.RouteAction_ROUTE_ACTION_ACCEPT}
+	if name != "" {
+		pa.Policies = []*api.Policy{{Name: name}}
+	}
+	return w.s.SetPolicyAssignment(context.Background(), &api.SetPolicyAssignmentRequest{Assignment: pa})
+}
